@@ -364,6 +364,16 @@ func properties() map[string]*PropertySpec {
 				{Harness: "H_C14_String", Lang: 2, MaxWitnesses: 2},
 				{Harness: "H_C14_Seed", Lang: 2, MaxWitnesses: 1},
 			}
+			// hostile byte strings (invalid UTF-8 of several shapes) as one token among canonical words
+			for kind := int64(0); kind < 8; kind++ {
+				for _, pos := range []int64{0, 11} {
+					out = append(out, &Instance{Harness: "H_C14_hostile", Args: []int64{2, 12, pos, kind}, Lang: 2, MaxWitnesses: 1})
+					if tier == "thorough" {
+						out = append(out, &Instance{Harness: "H_C14_hostile", Args: []int64{5, 12, pos, kind}, Lang: 5, MaxWitnesses: 1})
+						out = append(out, &Instance{Harness: "H_C14_hostile", Args: []int64{2, 24, 2 * pos, kind}, Lang: 2, MaxWitnesses: 1})
+					}
+				}
+			}
 			ns := []int64{0, 1, 11, 12, 13, 15, 16, 24, 25, 27}
 			if tier == "thorough" {
 				ns = counts0to27()
@@ -388,7 +398,7 @@ func properties() map[string]*PropertySpec {
 			}
 			return out
 		},
-		Bounds:  []string{"Language: every int64", "word count: every int64", "entropy: every length 0..40 with symbolic contents", "sentences: token sequences of n tokens (quick n in {0,1,11,12,13,15,16,24,25,27}, thorough 0..27), the raw text any pre-image of the normal form (counts of a whitespace rune in the raw text: any value up to the number of separators)", "reader: <=2 reads with symbolic fragment and failure", "every index, slice, nil-map, nil-deref, division, shift, type-assertion and big.Int precondition on every path is an SMT obligation"},
+		Bounds:  []string{"Language: every int64", "word count: every int64", "entropy: every length 0..40 with symbolic contents", "sentences: token sequences of n tokens (quick n in {0,1,11,12,13,15,16,24,25,27}, thorough 0..27), the raw text any pre-image of the normal form (counts of a whitespace rune in the raw text: any value up to the number of separators)", "hostile tokens (H_C14_hostile): eight concrete invalid-UTF-8 byte strings (runs of continuation bytes, lone 0xFF, truncated sequence, overlong and surrogate encodings, NUL, beyond U+10FFFF) as the first or last token among canonical words with symbolic indices", "reader: <=2 reads with symbolic fragment and failure", "every index, slice, nil-map, nil-deref, division, shift, type-assertion and big.Int precondition on every path is an SMT obligation"},
 		Outside: []string{"NFKD and PBKDF2 assumed total and terminating on every byte string", "huge inputs (memory exhaustion)"},
 		Stubs:   []string{stubSHA, stubBig, stubStr, stubNFKD, stubOnce, stubK},
 	}
